@@ -53,7 +53,7 @@ def gen(rng, tier):
     r = rng.random()
     if r < 0.72:
       target = rng.choice(['probe', 'probe', 'probe', 'method', 'bare_method',
-                           'unregistered', 'klass'])
+                           'unregistered', 'klass', 'plain_class'])
       spec = rng.choice(specs)
       uid[0] += 1
       if target == 'probe':
@@ -74,6 +74,10 @@ def gen(rng, tier):
       elif target == 'klass':
         param = rng.choice(['ka', 'kb', 'nope'])
         sel_full = 'mm.K'
+      elif target == 'plain_class':
+        # a class with neither __init__ nor __new__ takes no parameters at all
+        param = rng.choice(['bogus', 'a', 'self'])
+        sel_full = 'mm.Plain'
       elif target == 'bare_method':
         param = 'ma'
         # without its class: bare, or under the module it was first registered
@@ -94,6 +98,8 @@ def gen(rng, tier):
         sel = rng.choice(['mm.K.meth', 'K.meth'])
       if target == 'klass':
         sel = rng.choice(['mm.K', 'K'])
+      if target == 'plain_class':
+        sel = rng.choice(['mm.Plain', 'Plain'])
       ops.append({'op': 'attempt', 'target': target, 'probe': spec['name'],
                   'sel': sel, 'param': param, 'val': 'v%d' % uid[0],
                   'api': rng.choice(APIS), 'scope': rng.choice(['sa', 'sa/sb'])})
@@ -202,6 +208,8 @@ def run(case):
   # the class itself is registered with a denylist
   gin.register(module='mm', denylist=['kb'])(K)
   KC = gin.get_configurable(K)
+  plain, _ = probes.compile_probe({'name': 'Plain', 'kind': 'cls_plain'}, hook)
+  gin.configurable('Plain', module='mm')(plain)
   probes.plant_module('vmod_c11', {'K': K})
 
   def snapshot():
